@@ -356,10 +356,30 @@ func (x *Exec) applyContract(st *State, con *Contract, cname string, pnames []st
 	if x.con != nil && len(st.frames) == 1 {
 		for _, cl := range x.con.After[site] {
 			fe := x.envFor(st)
+			x.addNamedLocals(fe, st)
 			fe.old = pre
+			if cl.Kind == "after.sets" {
+				// ghost assignment: the named ghost variable takes the value of the expression
+				v, err := fe.evalTerm(cl.E)
+				if err != nil {
+					x.errorf("%s: after %s sets %s: %v", x.shortFn(x.fn), site, cl.Label, err)
+					continue
+				}
+				if !x.isGhost(cl.Label) {
+					x.errorf("%s: after %s sets: %s is not a ghost variable", x.shortFn(x.fn), site, cl.Label)
+					continue
+				}
+				// (the frame obligation at function exit covers ghosts that are not in the modifies clause)
+				st.setG(cl.Label, v.T)
+				continue
+			}
 			g, err := fe.evalBool(cl.E)
 			if err != nil {
 				x.errorf("%s: after %s: %v", x.shortFn(x.fn), site, err)
+				continue
+			}
+			if cl.Kind == "after.asserts" {
+				x.emit(st, "assert", "assert@"+site+"."+clauseName(cl, 0), g, x.tagsOf(cl.Tags), "ghost assertion after "+site+": "+cl.Src, pos)
 				continue
 			}
 			st.assume(g)
